@@ -217,9 +217,12 @@ def _sector_arg(sym, sec, lab, form):
     na, ka, nb, kb = sec
     if lab.species is not None:
         names = sorted(set(lab.species.values()))
-        if form % 3 == 0:
+        if form % 4 == 0:
             return {names[0]: ka, names[1]: kb}, "U1U1"
-        if form % 3 == 1:
+        if form % 4 == 1:
+            # keys against the sorted label order: the labels decide, not the insertion order
+            return {names[1]: kb, names[0]: ka}, (None if form >= 4 else "U1U1")
+        if form % 4 == 2:
             return (ka, kb), "U1U1"
     return ((na, ka), (nb, kb)), ("U1U1" if form % 2 == 0 else None)
 
@@ -363,7 +366,7 @@ def observe_case(terms, n, jw, pd, lab, style, rng, have_nx, rich=False, nsector
         if cands:
             pick = [cands[i] for i in rng.permutation(len(cands))[:nsectors]]
             for sym, sec in pick:
-                form = int(rng.integers(6))
+                form = int(rng.integers(8))
                 how = "default" if rng.random() < 0.5 else "percall"
                 rec["sectors"].append(_sector_obs(terms, lab, n, jw, pd, style, sym, sec,
                                                   regsA_c if sym == "U1U1" else [], form, how, scale, H))
@@ -371,6 +374,29 @@ def observe_case(terms, n, jw, pd, lab, style, rng, have_nx, rich=False, nsector
 
 
 # ---------------------------------------------------------------------------- rank tables
+
+U1U1_FORMS = ["dict/sorted", "dict/reversed", "tuple", "explicit/species", "explicit/nospecies"]
+
+
+def _u1u1_space(n, regsA, na, ka, nb, kb, form):
+    """HilbertSpace of n registers, species 'a' on regsA and 'b' elsewhere, U1U1 sector (ka, kb) in one of the
+    documented spellings.  The first species in sorted label order is 'a' whatever the order of the sites,
+    of the species mapping or of the keys of the sector dict."""
+    from quimb.operator import HilbertSpace
+
+    if form == "explicit/nospecies":
+        # no species: the first na registers are the first block (only meaningful for contiguous species)
+        return HilbertSpace(n, sector=((na, ka), (nb, kb)), symmetry="U1U1")
+    sites = [("a" if i in regsA else "b", i) for i in range(n)]
+    if form == "dict/sorted":
+        return HilbertSpace(sites, species=lambda s: s[0], sector={"a": ka, "b": kb})
+    if form == "dict/reversed":
+        # keys in the opposite of the sorted label order: the labels decide, not the insertion order
+        return HilbertSpace(sites, species={s: s[0] for s in reversed(sites)}, sector={"b": kb, "a": ka}, symmetry="U1U1")
+    if form == "tuple":
+        return HilbertSpace(sites, species={s: s[0] for s in sites}, sector=(ka, kb), symmetry="U1U1")
+    return HilbertSpace(sites, species=lambda s: s[0], sector=((na, ka), (nb, kb)))
+
 
 def observe_ranktables(nmax, nmax_species, rng, dispatch_rank_syms, config_level_upto):
     from quimb.operator import HilbertSpace
@@ -444,32 +470,31 @@ def observe_ranktables(nmax, nmax_species, rng, dispatch_rank_syms, config_level
                     for kb in range(nb + 1):
                         sec = [na, ka, nb, kb]
                         contiguous = regsA == list(range(na))
-                        r = base("U1U1", sec, regsA, n, "HilbertSpace.flat", "species" if not contiguous else "explicit")
-                        try:
-                            if contiguous and (ka + kb + li) % 2 == 0:
-                                hs = HilbertSpace(n, sector=((na, ka), (nb, kb)), symmetry="U1U1")
-                            else:
-                                sites = [("a" if i in regsA else "b", i) for i in range(n)]
-                                form = (ka + 2 * kb + li) % 3
-                                if na == 0 or nb == 0:
-                                    # one species only: the explicit form is the only spelling
-                                    hs = HilbertSpace(sites, species=None, sector=((na, ka), (nb, kb)), symmetry="U1U1")
-                                elif form == 0:
-                                    hs = HilbertSpace(sites, species=lambda s: s[0], sector={"a": ka, "b": kb})
-                                elif form == 1:
-                                    hs = HilbertSpace(sites, species={s: s[0] for s in sites}, sector=(ka, kb), symmetry="U1U1")
-                                else:
-                                    hs = HilbertSpace(sites, species=lambda s: s[0], sector=((na, ka), (nb, kb)))
-                            r["size"] = int(hs.size)
-                            fcs = [hs.rank_to_flatconfig(k) for k in range(r["size"])]
-                            r["tab"] = [U.cfg_of(fc) for fc in fcs]
+                        # every documented spelling of the sector for small n, a rotating one beyond
+                        if na == 0 or nb == 0:
+                            forms = ["explicit/nospecies"]          # one species only: the only spelling
+                        elif n <= 4:
+                            forms = list(U1U1_FORMS) if contiguous else list(U1U1_FORMS[:-1])
+                        else:
+                            k = (ka + 2 * kb + li) % (len(U1U1_FORMS) if contiguous else len(U1U1_FORMS) - 1)
+                            forms = [U1U1_FORMS[k]]
+                            # the spelling whose key order matters, where it matters
+                            if ka != kb and "dict/reversed" not in forms and (ka + kb + li) % 2 == 0:
+                                forms.append("dict/reversed")
+                        for form in forms:
+                            r = base("U1U1", sec, regsA, n, "HilbertSpace.flat", "U1U1:" + form)
                             try:
-                                r["inv"] = [int(hs.flatconfig_to_rank(fc)) for fc in fcs]
+                                hs = _u1u1_space(n, regsA, na, ka, nb, kb, form)
+                                r["size"] = int(hs.size)
+                                fcs = [hs.rank_to_flatconfig(k) for k in range(r["size"])]
+                                r["tab"] = [U.cfg_of(fc) for fc in fcs]
+                                try:
+                                    r["inv"] = [int(hs.flatconfig_to_rank(fc)) for fc in fcs]
+                                except Exception as ex:  # noqa
+                                    r["iexc"] = type(ex).__name__
                             except Exception as ex:  # noqa
-                                r["iexc"] = type(ex).__name__
-                        except Exception as ex:  # noqa
-                            r["exc"] = type(ex).__name__
-                        recs.append(r)
+                                r["exc"] = type(ex).__name__
+                            recs.append(r)
                         if contiguous and n <= 8:
                             r3 = base("U1U1", sec, regsA, n, "configcore.dispatch", "registers")
                             try:
@@ -613,7 +638,7 @@ def observe_float_cases(rng, ncases, nrange, have_nx):
         cands = [(s, q) for s, q in U.all_sectors(n, regsA) if U.conserves(ref, s, regsA if s == "U1U1" else [], n)]
         for k in rng.permutation(len(cands))[:3]:
             sym, sec = cands[int(k)]
-            sector, symmetry = _sector_arg(sym, sec, lab, int(rng.integers(6)))
+            sector, symmetry = _sector_arg(sym, sec, lab, int(rng.integers(8)))
             try:
                 hs_s = lab.make(sector=sector, symmetry=symmetry)
                 basis = [U.cfg_of(hs_s.rank_to_flatconfig(r)) for r in range(hs_s.size)]
@@ -695,9 +720,14 @@ def observe_models_1d(rng, Ls, thorough):
 
     recs = []
 
+    class SiteOutOfRange(Exception):
+        pass
+
     def local_dense(lh, L, d):
         A = np.zeros((d ** L, d ** L), dtype=complex)
         for (i, j), h in lh.terms.items():
+            if not (0 <= i < L and 0 <= j < L):
+                raise SiteOutOfRange((i, j))
             A = A + U.embed(np.asarray(h), [i, j], L, d=d)
         return A
 
@@ -746,41 +776,58 @@ def observe_models_1d(rng, Ls, thorough):
                     continue
                 add(name, L, cyclic, 0.5, "MPO_ham", lambda: U.mpo_to_dense(mpo(), L), ref)
                 add(name, L, cyclic, 0.5, "ham_1d", lambda: local_dense(loc(), L, 2), ref)
-            # a custom SpinHam1D with site-specific terms, spin 1/2 and spin 1, against plain numpy
+            # custom SpinHam1D objects against the explicit Kronecker reference (first factor of a two-site
+            # term on site i, second on site (i + 1) % L: on the wrap bond the first factor sits on site L - 1):
+            # two-site terms that are NOT symmetric under exchanging their sites (X.Y - Y.X, a one-directional
+            # hop, two different raw arrays), site-specific one- and two-site terms, spin 1/2 and spin 1
             for S in ((0.5, 1.0) if (thorough or L <= 3) else (0.5,)):
                 d = int(2 * S + 1)
                 if d ** L > 81:
                     continue
-                sb = qtn.SpinHam1D(S=S, cyclic=cyclic)
-                sb += 0.5, "+", "-"
-                sb += 0.5, "-", "+"
-                sb += -0.75, "Z", "Z"
-                sb -= 0.25, "X"
-                if L >= 3:
-                    sb[1, 2] += 1.5, "Z", "X"
-                    sb[1, 2] += 0.5, "Y", "Y"
-                sb[0] += 2.0, "Z"
-                sb[L - 1] += -1.0, "Y"
+                rawA = qu.qarray(np.arange(d * d).reshape(d, d) * 0.25)
+                rawB = qu.qarray(np.arange(d * d).reshape(d, d)[::-1] + 1j * np.eye(d))
+                default2 = [(0.5, "+", "-"), (0.5, "-", "+"), (-0.75, "Z", "Z"), (0.75, "X", "Y"), (-0.75, "Y", "X"),
+                            (1.25, "+", "-"), (0.5, rawA, rawB)]
+                bond12 = [(1.5, "Z", "X"), (0.5, "Y", "Y")]
+                wrapv = [(1.0, "Z", "X"), (0.5, "-", "Z"), (0.25, "X", "Z"), (0.75, "Y", "+"), (0.5, rawB, rawA),
+                         (-0.5, "Z", "Z"), (1.5, "+", "-")]          # as many terms as the default bond
 
                 def sop(s):
-                    return np.asarray(qu.spin_operator(s, S=S))
+                    return np.asarray(qu.spin_operator(s, S=S)) if isinstance(s, str) else np.asarray(s)
 
-                ref = np.zeros((d ** L, d ** L), dtype=complex)
-                for i in range(L):
-                    one = [(2.0, "Z")] if i == 0 else ([(-1.0, "Y")] if i == L - 1 else [(-0.25, "X")])
-                    if i == 0 and i == L - 1:
-                        one = [(-1.0, "Y")]
-                    for f, s in one:
-                        ref += f * U.embed(sop(s), [i], L, d=d)
-                    if i + 1 == L and not cyclic:
-                        break
-                    jn = (i + 1) % L
-                    two = [(1.5, "Z", "X"), (0.5, "Y", "Y")] if (i, i + 1) == (1, 2) and L >= 3 else [(0.5, "+", "-"), (0.5, "-", "+"), (-0.75, "Z", "Z")]
-                    for f, s1, s2 in two:
-                        ref += f * U.embed(np.kron(sop(s1), sop(s2)), [i, jn], L, d=d)
-                add("SpinHam1D", L, cyclic, S, "build_mpo", lambda: U.mpo_to_dense(sb.build_mpo(L), L), ref)
-                add("SpinHam1D", L, cyclic, S, "build_sparse", lambda: sb.build_sparse(L).toarray(), ref)
-                add("SpinHam1D", L, cyclic, S, "build_local_ham", lambda: local_dense(sb.build_local_ham(L), L, d), ref)
+                for variant in (("SpinHam1D", "SpinHam1D/wrapvar") if (cyclic and L >= 3) else ("SpinHam1D",)):
+                    sb = qtn.SpinHam1D(S=S, cyclic=cyclic)
+                    for t in default2:
+                        sb += t
+                    sb -= 0.25, "X"
+                    if L >= 3:
+                        for t in bond12:
+                            sb[1, 2] += t
+                    sb[0] += 2.0, "Z"
+                    sb[L - 1] += -1.0, "Y"
+                    if variant.endswith("wrapvar"):
+                        # site-specific terms on the wrap bond: the only key the item syntax accepts for it
+                        for t in wrapv:
+                            sb[L - 1, L] += t
+                    ref = np.zeros((d ** L, d ** L), dtype=complex)
+                    for i in range(L):
+                        one = [(-1.0, "Y")] if i == L - 1 else ([(2.0, "Z")] if i == 0 else [(-0.25, "X")])
+                        for f, s1 in one:
+                            ref += f * U.embed(sop(s1), [i], L, d=d)
+                        if i + 1 == L and not cyclic:
+                            break
+                        jn = (i + 1) % L
+                        if (i, i + 1) == (1, 2) and L >= 3:
+                            two = bond12
+                        elif i == L - 1 and variant.endswith("wrapvar"):
+                            two = wrapv
+                        else:
+                            two = default2
+                        for f, s1, s2 in two:
+                            ref += f * U.embed(np.kron(sop(s1), sop(s2)), [i, jn], L, d=d)
+                    add(variant, L, cyclic, S, "build_mpo", lambda: U.mpo_to_dense(sb.build_mpo(L), L), ref)
+                    add(variant, L, cyclic, S, "build_sparse", lambda: _densify(sb.build_sparse(L)), ref)
+                    add(variant, L, cyclic, S, "build_local_ham", lambda: local_dense(sb.build_local_ham(L), L, d), ref)
     return recs
 
 
